@@ -423,7 +423,9 @@ def _get_comp_cls_media(comp_cls: Type["Component"]) -> Any:
             continue
 
         # Prepare base classes
-        media_input = getattr(curr_cls, "Media", None)
+        # NOTE: We take only the `Media` defined on THIS class. A `Media` found on a parent class
+        #       (incl. its `extend`) describes the parent, and is applied when the parent is processed.
+        media_input = curr_cls.__dict__.get("Media", None)
         media_extend = getattr(media_input, "extend", True)
 
         # This ensures the same behavior as Django's Media class, where:
